@@ -79,6 +79,8 @@ class C20(Prop):
             elif g % 6 == 5:        # characters that command-line layers (argument files, shells) treat specially
                 base["comment_val"] = "@home: see @README, \"quoted\" $HOME ~user !x"
                 base["source_val"] = "@SceneGroup"
+                base["url_upper"] = True
+                base["url_suffix"] = ("?", "#", "/../x/./", "?#")[(g // 6) % 4]
             if g % 4 == 3:
                 base["out_slash"] = True
             out.append(dict(base, route="kw", kw_str=g % 2 == 0))
